@@ -833,6 +833,24 @@ def gen_vocch(tier):
                 yield {"g": "voc", "rows": [[t, "q", None]], "ctx": "top", "ch": "normal", "chcol": [col, val]}
 
 
+OSM_VARIANTS = {
+    "selfref": [{"list_name": "o", "name": "o", "label": "O"}],                       # a tag named like its own list
+    "selfref2": [{"list_name": "o", "name": "a", "label": "A"}, {"list_name": "a", "name": "a", "label": "AA"}],
+    "cycle": [{"list_name": "o", "name": "a", "label": "A"}, {"list_name": "a", "name": "o", "label": "O"}],
+    "nolabel": [{"list_name": "o", "name": "a"}],
+    "noname": [{"list_name": "o", "label": "A"}],
+    "nolist": [{"name": "a", "label": "A"}],
+    "deep": [{"list_name": "o", "name": "a", "label": "A"}, {"list_name": "a", "name": "b", "label": "B"}, {"list_name": "b", "name": "c", "label": "C"}],
+}
+
+
+def gen_vocosm(tier):
+    for ov in OSM_VARIANTS:
+        for t in ("osm o", "osm", "osm a", "text"):
+            for ctx in ("top", "repeat"):
+                yield {"g": "voc", "rows": [[t, "q", None]], "ctx": ctx, "ch": "normal", "osm": ov}
+
+
 def gen_voc2(tier):
     types = VALID_TYPES + MALFORMED_TYPES
     for t1 in types:
@@ -877,6 +895,8 @@ def _run_voc(case):
     if case.get("chcol"):
         for r in wb.get("choices", ()):
             r[case["chcol"][0]] = case["chcol"][1]
+    if case.get("osm"):
+        wb["osm"] = [dict(r) for r in OSM_VARIANTS[case["osm"]]]
     return rows, wb, run_convert(wb)
 
 
@@ -930,8 +950,10 @@ def check_voc(case):
     rows, wb, out = _run_voc(case)
     viol = []
     if out.kind == "crash":
-        feat = isolate(case, out) if not case.get("chcol") else "choices-header"
-        if case.get("chcol"):
+        feat = isolate(case, out) if not (case.get("chcol") or case.get("osm")) else "sheet"
+        if case.get("osm"):
+            sig = f"internal-exception:{out.exc}:{out.where}:osm-sheet={case['osm']}"
+        elif case.get("chcol"):
             sig = f"internal-exception:internal-key-header=choices.{case['chcol'][0]}"
         elif feat.startswith("internal-key-header=") or any(ex and ex[0] in INTERNAL_COLS for _, _, ex in case["rows"]):
             col = next(ex[0] for _, _, ex in case["rows"] if ex and ex[0] in INTERNAL_COLS)
@@ -949,7 +971,7 @@ def check_voc(case):
 # --------------------------------------------------------------------------- engine -----
 from xmc.spaces import GenSpace  # noqa: E402
 
-SPACE = GenSpace({"seq": gen_seq, "cat": gen_cat, "voc1": gen_voc1, "vocint": gen_vocint, "vocch": gen_vocch, "voc2": gen_voc2, "voc3": gen_voc3}, chunk=500)
+SPACE = GenSpace({"seq": gen_seq, "cat": gen_cat, "voc1": gen_voc1, "vocint": gen_vocint, "vocch": gen_vocch, "vocosm": gen_vocosm, "voc2": gen_voc2, "voc3": gen_voc3}, chunk=500)
 blocks = SPACE.blocks
 expand = SPACE.expand
 
